@@ -92,5 +92,15 @@ def run_case(c):
             else:
                 o["r"] = names(r)
             return o
-        R.append(call("small", {"chord": ch}, f))
+        R.append(call("small", {"chord": ch, "shorthand": False}, f))
+        def g():
+            r = chords.determine(list(chord), True)
+            o = {"r": [], "interval": []}
+            if len(chord) == 2:
+                o["r"] = [x.split(" ") for x in r]
+                o["interval"] = intervals.determine(chord[0], chord[1]).split(" ")
+            else:
+                o["r"] = names(r)
+            return o
+        R.append(call("small", {"chord": ch, "shorthand": True}, g))
     return R
